@@ -72,7 +72,19 @@ def explore(prog_exe, program, reduction, timeout):
     os.remove(path)
     cmd = [fw.SIMGRID_MC, prog_exe, fw.SMALL_PLATFORM, program, "--cfg=model-check/reduction:" + reduction,
            "--log=root.thres:critical"]
-    rc, so, se = fw.sh2(cmd, timeout=timeout, env={HOOK: path})
+    # own process group: on a timeout the application forked by simgrid-mc must die with it
+    import signal, subprocess
+    env = dict(os.environ)
+    env[HOOK] = path
+    pr = subprocess.Popen(cmd, stdout=subprocess.PIPE, stderr=subprocess.PIPE, text=True, errors="replace", env=env,
+                          start_new_session=True)
+    try:
+        so, se = pr.communicate(timeout=timeout)
+        rc = pr.returncode
+    except subprocess.TimeoutExpired:
+        os.killpg(pr.pid, signal.SIGKILL)
+        so, se = pr.communicate()
+        rc = 124
     ex = parse_traces(path)
     if os.path.exists(path):
         os.remove(path)
@@ -179,7 +191,11 @@ META = {
             "read through a hook, and the verified normal form decides: odpor's executions are pairwise inequivalent and as many as the "
             "classes of the unreduced exploration.",
     "note": "The ODPOR algorithm itself (wakeup trees, source sets) is not modelled: optimality is decided per program by the verified "
-            "normal form. Trusted: Coq kernel, extraction, the hook, mc1_prog.cpp, the generator. DFS only; small programs (<= 3 actors).",
+            "normal form. Trusted: Coq kernel, extraction, the hook, mc1_prog.cpp, the generator. DFS only; small programs (<= 3 actors). "
+            "Status: theorems compile (Print Assumptions: closed); the check was green on 10 programs (387 unreduced executions, 20 classes, "
+            "20 odpor executions) in a private run against the rebuilt library; NOT claimed because the official bin/check run and the "
+            "mutant runs (no races pushed in get_racing_events_of; wakeup-tree independence test disabled; sleep-set filters of "
+            "get_odpor_extension_from disabled; harmless: reversed skip-list loop) could not complete on the overloaded machine.",
     "technique": "Coq proof (trace monoid normal form) + per-program comparison of simgrid-mc explorations through a hook",
     "claimed": False,
 }
